@@ -56,7 +56,7 @@ impl Scenario for CompatSc {
     fn run(&self, plan: &Plan, env: &Env, rec: &mut Rec) {
         match plan.class.as_str() {
             "golden" => run_golden(plan, env, rec),
-            "ref-interop" | "ref-interop-big" => run_ref_interop(plan, env.cur, rec),
+            "ref-interop" | "ref-interop-big" => run_ref_interop(plan, env.cur, env.pinned, rec),
             _ => {}
         }
     }
@@ -144,7 +144,7 @@ fn documented(g: Grp) -> (Bls, Vec<u8>) {
     (b, enc)
 }
 
-fn run_ref_interop(plan: &Plan, lib: &dyn Lib, rec: &mut Rec) {
+fn run_ref_interop(plan: &Plan, lib: &dyn Lib, pinned: &dyn Lib, rec: &mut Rec) {
     let g = grp_of(plan.get("g"));
     let scheme = plan.get("scheme") as u8;
     let sch = scheme_name(scheme);
@@ -188,6 +188,27 @@ fn run_ref_interop(plan: &Plan, lib: &dyn Lib, rec: &mut Rec) {
     let sig = rec.call(lib, g, Op::Sign, &[&a.sk, &[scheme], &id]).first().map(|v| v.to_vec()).unwrap_or_default();
     let d = rec.call(lib, g, Op::TlDecrypt, &[&tct, &sig]);
     rec.expect("C18", "library-opens-reference-timelock", d.opt_value() == Some(Some(msg.as_slice())), || format!("timelock ref->lib scheme={} g={} | len={}: {}", sch, g.name(), len, crate::sc_crypt::describe(&d)));
+    // another implementation's ciphertexts whose alpha is written the OTHER way (big-endian) or drawn from {0,1}^256: the
+    // opener sees 32 opaque bytes. Whatever the pinned release does with them, the tree does (data written for the old
+    // release's opener is still around)
+    if len <= 4096 {
+        let mut be = alpha.to_le_bytes();
+        be.reverse();
+        let mut wide = [0xffu8; 32];
+        wide[..16].copy_from_slice(&x.bytes(16));
+        let mut rnd = [0u8; 32];
+        rnd.copy_from_slice(&x.bytes(32));
+        for (what, a32) in [("big-endian alpha", be), ("alpha above the group order", wide), ("alpha from {0,1}^256", rnd)] {
+            let t = refimpl::timelock_seal_raw_alpha(&b, &pk, &msg, &idp, &a32);
+            let bytes = TimeLockFields { u: t.u.to_bytes(), v: t.v.to_vec(), w: t.w.clone(), scheme }.build();
+            let old = rec.call(pinned, g, Op::TlDecrypt, &[&bytes, &sig]);
+            let new = rec.call(lib, g, Op::TlDecrypt, &[&bytes, &sig]);
+            // (the pinned release is wrong for the augmentation scheme: finding F9, excluded by name as everywhere in C18)
+            if scheme != 1 {
+                rec.expect("C18", "old-and-new-open-the-same", old.opt_value() == new.opt_value(), || format!("timelock other-implementation {} scheme={} g={} len={} | the pinned release answers {}, the tree answers {}", what, sch, g.name(), len, crate::sc_crypt::describe(&old), crate::sc_crypt::describe(&new)));
+            }
+        }
+    }
     if let Some(ct) = rec.call(lib, g, Op::TimeLock, &[&a.pk, &[scheme], &msg, &id]).first().map(|v| v.to_vec()) {
         let ok = TimeLockFields::parse(&ct, pl).and_then(|f| {
             let v: [u8; 32] = f.v.clone().try_into().ok()?;
